@@ -14,7 +14,10 @@ Input space:
   * random sparse graphs with 7..14 nodes (trees + few chords, forests, G(n,p)), ids that are
     offset / non-contiguous integers, strings, tuples or mixed, anchors at every position;
   * disconnected graphs (nothing outside the anchor's component may be yielded);
-  * a few calls with the optional `DAG` argument (must not change what is yielded).
+  * a few calls with the optional `DAG` argument (must not change what is yielded);
+  * same-object scenarios: enumerate, rewire the SAME graph object in place (one edge removed, one added: same
+    node and edge counts), enumerate again with the same anchor - each answer is judged against the graph as it is
+    at call time (no state may be kept per object / per (graph, anchor, size) between calls).
 The real function is always called with the real ids; ids travel to Lean through an injective
 code chosen by the harness.
 """
@@ -128,9 +131,14 @@ def canon_edges(nodes, edges):
     return tuple(sorted((min(idx[u], idx[v]), max(idx[u], idx[v])) for u, v in edges))
 
 
-def make_case(rng, nodes, edges, anchor, tags, with_dag=False, in_domain=True, oracle=False):
-    g = build_graph(nodes, edges)
-    code = make_codes(list(g.nodes), rng)
+def make_case(rng, nodes, edges, anchor, tags, with_dag=False, in_domain=True, oracle=False, g=None, code=None,
+              extra_meta=None):
+    """`g` given: the call is made on THAT graph object as it is now (scenarios that re-use / edit one object
+    between calls); `nodes`/`edges` then describe its current state"""
+    if g is None:
+        g = build_graph(nodes, edges)
+    if code is None:
+        code = make_codes(list(g.nodes), rng)
     orig, adj = extract(g, anchor, code)
     out = call_impl(impl_run, g, anchor, code, with_dag)
     req = [Atom("C17"), Atom("cis"), orig, code[anchor], adj]
@@ -141,6 +149,8 @@ def make_case(rng, nodes, edges, anchor, tags, with_dag=False, in_domain=True, o
     meta = {"nodes": [repr(x) for x in nodes], "edges": [[repr(u), repr(v)] for u, v in edges],
             "anchor": repr(anchor), "with_dag": with_dag,
             "code": [[repr(k), v] for k, v in code.items()]}
+    if extra_meta:
+        meta.update(extra_meta)
     if oracle:
         meta["py_count"] = brute_count(g, anchor)
     pos = list(g.nodes).index(anchor)
@@ -292,6 +302,52 @@ def random_cases(rng, count, nmin=7, nmax=14):
     return cases
 
 
+def rewire_steps(rng, g, k):
+    """k in-place rewirings that keep the numbers of nodes and edges: remove one edge, add one non-edge"""
+    steps = []
+    h = g.copy()
+    for _ in range(k):
+        es = list(h.edges)
+        non = [(u, v) for i, u in enumerate(h.nodes) for v in list(h.nodes)[i + 1:] if not h.has_edge(u, v)]
+        if not es or not non:
+            break
+        rem, add = rng.choice(es), rng.choice(non)
+        h.remove_edge(*rem)
+        h.add_edge(*add)
+        steps.append([rem, add])
+    return steps
+
+
+def same_object_cases(rng, count, nmin=5, nmax=9):
+    """state across calls / in-place edits of ONE graph object: enumerate; rewire the same object in place (one
+    edge removed, another added: same node and edge counts) or add / remove an edge or a node; enumerate again with the
+    same anchor.  Every answer must meet the specification for the graph as it is WHEN THE CALL IS MADE."""
+    cases = []
+    for _ in range(count):
+        n = rng.randint(nmin, nmax)
+        edges, kind = random_sparse(rng, n)
+        style = rng.choice(["str", "tuple", "int_sparse", "int_plain"])
+        if style == "int_plain":
+            nodes, es = list(range(n)), list(edges)
+        else:
+            nodes, es, _ = relabelled(rng, n, edges, style)
+        g = build_graph(nodes, es)
+        anchor = rng.choice(nodes)
+        code = make_codes(list(g.nodes), rng)
+        steps = rewire_steps(rng, g, rng.randint(1, 3))
+        scenario = {"same_object": {"nodes": [repr(x) for x in nodes], "edges": [[repr(u), repr(v)] for u, v in es],
+                                    "steps": [[[repr(a), repr(b)], [repr(c), repr(d)]] for (a, b), (c, d) in steps]}}
+        cases.append(make_case(rng, nodes, es, anchor, ("same_object", "call=1", kind, "ids=" + style), g=g, code=code,
+                               oracle=True, extra_meta=dict(scenario, call=0)))
+        for i, (rem, add) in enumerate(steps):
+            g.remove_edge(*rem)
+            g.add_edge(*add)
+            cases.append(make_case(rng, list(g.nodes), list(g.edges), anchor,
+                                   ("same_object", "call=%d_after_in_place_rewiring" % (i + 2), kind, "ids=" + style),
+                                   g=g, code=code, oracle=True, extra_meta=dict(scenario, call=i + 1)))
+    return cases
+
+
 def corpus_cases(rng):
     """fixed regression inputs (run first): corpus/C17/*.json"""
     import glob
@@ -397,6 +453,7 @@ def run(tier, seed):
     else:
         cases += atlas_cases(rng, 7)
         cases += random_cases(rng, 1500)
+    cases += same_object_cases(rng, 60 if tier == "quick" else 600)
     cases += out_of_domain_cases(rng)
     problems = []
     order_mismatches = []
@@ -426,7 +483,8 @@ def run(tier, seed):
         level="proof",
         rule="corpus; graph atlas (all graphs with <=6 nodes quick / <=7 thorough) x every anchor x {atlas int ids, random "
              "string relabelling, random tuple relabelling} with shuffled node and adjacency order; random sparse graphs "
-             "7..14 nodes (tree+chords, forests, G(n,p)) x 3 anchors x id style; non-trivial = >=3 nodes and anchor of "
+             "7..14 nodes (tree+chords, forests, G(n,p)) x 3 anchors x id style; same-object scenarios (enumerate, rewire the same graph "
+             "object in place with unchanged node/edge counts, enumerate again: 1-3 rewirings per object); non-trivial = >=3 nodes and anchor of "
              "degree >=1, distinct by (node order, edge set, anchor)",
         checker_cmd="cd lean && lake build FGVerif.Proofs.C17 && lake env lean FGVerif/Audit/C17.lean",
         explanation="theorems in lean/FGVerif/Proofs/C17*.lean about Model/C17.lean (soundness, assert never fails, fuel, "
@@ -435,8 +493,9 @@ def run(tier, seed):
                     "generator order; executable spec C17.specCheck applied to every implementation output on the "
                     "original graph; python bitmask oracle cross-checks the Lean spec's count")
     if problems:
+        # exit 1 iff a VIOLATION line was printed; machinery problems alone are exit 2; both -> 1
         print("ERROR property=C17 machinery: %d problem(s); first: %s" % (len(problems), problems[0]))
-        return 2
+        return 1 if rc == 1 else 2
     return rc
 
 
@@ -455,6 +514,18 @@ def replay(path):
     anchor = ast.literal_eval(meta["anchor"])
     code = {ast.literal_eval(k): v for k, v in meta["code"]}
     g = build_graph(nodes, edges)
+    so = meta.get("same_object")
+    if so:
+        # re-run the whole scenario on ONE graph object: enumerate, rewire in place, enumerate again ... up to the recorded call
+        lit = ast.literal_eval
+        g = build_graph([lit(x) for x in so["nodes"]], [(lit(u), lit(v)) for u, v in so["edges"]])
+        ncall = meta.get("call", 0)
+        for j in range(ncall):
+            call_impl(impl_run, g, anchor, code, False)          # the earlier call(s) on the same object
+            (ra, rb), (aa, ab) = so["steps"][j]
+            g.remove_edge(lit(ra), lit(rb))
+            g.add_edge(lit(aa), lit(ab))
+        print("re-ran the same-object scenario: %d in-place rewiring(s) before the judged call" % meta.get("call", 0))
     orig, adj = extract(g, anchor, code)
     out = call_impl(impl_run, g, anchor, code, meta.get("with_dag", False))
     c = Case([Atom("C17"), Atom("cis"), orig, code[anchor], adj], out)
